@@ -1,6 +1,26 @@
 // Package props registers one monitor-driven check per property.
 package props
 
-import "sort"
+import (
+	"math"
+	"math/big"
+	"sort"
+
+	"github.com/DataDog/sketches-go/ddsketch/store"
+)
 
 func sortStrings(s []string) { sort.Strings(s) }
+
+// bigSum returns the exactly rounded sum of vals (400-bit accumulation) and the sum of magnitudes.
+func bigSum(vals []float64) (float64, float64) {
+	acc := new(big.Float).SetPrec(2200)
+	abs := 0.0
+	for _, v := range vals {
+		acc.Add(acc, new(big.Float).SetPrec(2200).SetFloat64(v))
+		abs += math.Abs(v)
+	}
+	f, _ := acc.Float64()
+	return f, abs
+}
+
+func layoutOf(s store.Store) store.VerifLayout { return store.VerifLayoutOf(s) }
